@@ -31,7 +31,7 @@ NextRow(t, s) ==
      ELSE <<s, -1, 0, 0>>
 
 EdgeRec ==
-  [ cfg  |-> [bits |-> SeqBits, wm |-> Watermark, rocmod |-> RocMod, table |-> B(WithTick),
+  [ cfg  |-> [bits |-> SeqBits, wm |-> Watermark, rocmod |-> RocMod, table |-> B(WithTick), opendev |-> B("EvictLosesState" \in Deviations),
               start |-> SetToSeq({<<s, start[s]>> : s \in Ssrcs})],
     pre  |-> hist,
     act  |-> hist'[Len(hist')],
